@@ -676,9 +676,11 @@ pub fn c05_body(case: &HCase, obs: &mut Obs) -> Result<(), String> {
         if *n > 1 {
             return Err(format!("[sig:evaluated-twice] type_info() of node {i} was evaluated {n} times by one Registry"));
         }
+        // ("at most once": a registry that holds a node without having evaluated it - a shared
+        // cache, say - is not what C05 forbids; it is only counted)
         let reachable = seen.contains_key(&Ident::Exact(Ty::N(i as u8)));
-        if reachable && *n != 1 {
-            return Err(format!("harness bug: node {i} is in the registry but its type_info() ran {n} times"));
+        if reachable && *n == 0 {
+            obs.class("evaluations/none_for_a_reachable_node");
         }
     }
     // re-register everything once more, in reverse: nothing may change
